@@ -117,8 +117,8 @@ def parse_u(tok, bound):
     return v if v < bound else None
 
 
-_DEC = re.compile(r"^[+-]?(\d+|\d+\.\d*|\d*\.\d+)([eE][+-]?\d+)?$")
-_RATIO = re.compile(r"^-?\d{1,18}/\d{1,18}$")
+_DEC = re.compile(r"^[+-]?([0-9]+|[0-9]+\.[0-9]*|[0-9]*\.[0-9]+)([eE][+-]?[0-9]+)?$")
+_RATIO = re.compile(r"^-?[0-9]{1,18}/[0-9]{1,18}$")
 
 
 def parse_coord(tok):
@@ -132,7 +132,7 @@ def parse_coord(tok):
         return Fraction(int(a), int(b))
     if not _DEC.match(tok):
         return None
-    m = re.match(r"^([+-]?)(\d*)\.?(\d*)(?:[eE]([+-]?\d+))?$", tok)
+    m = re.match(r"^([+-]?)([0-9]*)\.?([0-9]*)(?:[eE]([+-]?[0-9]+))?$", tok)
     sign, ip, fp, ex = m.group(1), m.group(2), m.group(3), m.group(4)
     e = int(ex) if ex else 0
     if abs(e) > 30:
@@ -308,3 +308,72 @@ def snap_vertex(tok):
         return None
     x, y, _ = tok.strip("()").split(",")
     return Fraction(x), Fraction(y)
+
+
+# ---------------------------------------------------------------------------------------------
+# character level (C09b / C10b): a third reading of the characters
+# ---------------------------------------------------------------------------------------------
+
+# Unicode White_Space = Rust's char::is_whitespace (NOT Python's str.isspace: U+001C..U+001F are
+# blanks for Python only)
+WHITE_SPACE = set(range(9, 14)) | {0x20, 0x85, 0xA0, 0x1680} | set(range(0x2000, 0x200B)) | {0x2028, 0x2029, 0x202F, 0x205F, 0x3000}
+
+
+def rust_is_ws(ch):
+    return ord(ch) in WHITE_SPACE
+
+
+def rust_split_ws(s):
+    out, cur = [], []
+    for ch in s:
+        if rust_is_ws(ch):
+            if cur:
+                out.append("".join(cur))
+                cur = []
+        else:
+            cur.append(ch)
+    if cur:
+        out.append("".join(cur))
+    return out
+
+
+def rust_lines(s):
+    """str::lines: split at \\n, no final empty line (a trailing \\r is a blank anyway)"""
+    parts = s.split("\n")
+    if parts and parts[-1] == "":
+        parts.pop()
+    return parts
+
+
+def tokenise_text(s):
+    return [rust_split_ws(l) for l in rust_lines(s)]
+
+
+def exact_decimal(fr):
+    """exact decimal text of a dyadic rational (what `parse::<f64>` reads back exactly)"""
+    fr = Fraction(fr)
+    den = fr.denominator
+    k = den.bit_length() - 1
+    assert den == 1 << k, "not dyadic"
+    num = abs(fr.numerator) * 5 ** k
+    s = str(num).rjust(k + 1, "0")
+    txt = s if k == 0 else s[:-k] + "." + s[-k:]
+    return ("-" if fr < 0 else "") + txt
+
+
+def ser_text(n, b0, b1, b2, u, verts, version=VERSION):
+    """the characters of `CMap2::serialize` (independent of the Lean model): verts: id -> (xtext, ytext)"""
+    nd = n + 1
+    w = len(str(nd))
+    out = ["[META]\n", f"{version} 2 {n}\n", "\n", "[BETAS]\n"]
+    for row in (b0, b1, b2):
+        out.append("".join(f"{str(x):>{w}} " for x in row).strip() + "\n")
+    out += ["\n", "[UNUSED]\n", "".join(f"{d} " for d in range(nd) if u[d]) + "\n", "\n", "[VERTICES]\n"]
+    for v in vertex_ids(n, b0, b1, b2, u):
+        if v in verts:
+            out.append(f"{v} {verts[v][0]} {verts[v][1]}\n")
+    return "".join(out)
+
+
+def hexs(s):
+    return s.encode("utf-8").hex()
